@@ -1919,7 +1919,7 @@ def corpus_c07(tier):
     progs = c07_programs()
     names = list(progs)
     if tier == "quick":
-        names = ["arith", "cond-same-type", "bundle", "entities", "memory", "counter2", "modcounter", "triangles", "far"]
+        names = ["arith", "cond-same-type", "bundle", "entities", "memory", "counter2", "modcounter", "triangles", "far", "same-type-compare", "same-type-compare-mem"]
     for pn in names:
         stmts, params = progs[pn]
         for ci, cell in enumerate(c07_cells(tier)):
